@@ -27,6 +27,7 @@ mod c15;
 mod c16;
 mod c17;
 mod child;
+mod coldstart;
 mod fuzzglue;
 include!("fuzzbody.rs");
 mod gen;
